@@ -67,6 +67,8 @@ def run(seed=0):
     ok("int(bytes) accepts surrounding whitespace, sign and underscores (is_dec is wider than dec's image)", int(b" 12 ") == 12 and int(b"+1_0") == 10)
     strs = ["", "a", "\x00", "é", "€", "\U0001F600", "a\nb"] + ["".join(chr(rng.choice([rng.randrange(0, 0xD800), rng.randrange(0xE000, 0x110000)])) for _ in range(5)) for _ in range(30)]
     ok("utf8: decode(encode(s)) == s and len(encode(s)) >= len(s)", all(s.encode("utf-8").decode("utf-8") == s and len(s.encode("utf-8")) >= len(s) for s in strs))
+    ok("utf-8-sig: one leading EF BB BF is dropped, then utf-8", all(b.decode("utf-8-sig") == (b[3:] if b.startswith(b"\xef\xbb\xbf") else b).decode("utf-8")
+                                                                      for b in (b"", b"abc", b"\xef\xbb\xbf", b"\xef\xbb\xbfabc", b"\xef\xbb\xbf\xef\xbb\xbfx", b"a\xef\xbb\xbf")))
     ok("utf8: lone surrogates raise UnicodeEncodeError", all(raises(lambda s=s: s.encode("utf-8"), UnicodeEncodeError) for s in ("\ud800", "a\udfffb")))
     ok("utf8: invalid bytes raise UnicodeDecodeError", all(raises(lambda b=b: b.decode("utf-8"), UnicodeDecodeError) for b in (b"\xff", b"\xc3", b"\xed\xa0\x80")))
     ok("latin1: decode is total and length preserving", all(len(bytes([b]).decode("latin-1")) == 1 for b in range(256)))
